@@ -21,6 +21,7 @@ func builtinIntrinsics() map[string]Intrinsic {
 	m["(*regexp.Regexp).FindStringSubmatch"] = inRegexpFindStringSubmatch
 	m["(*regexp.Regexp).ReplaceAllString"] = inRegexpReplaceAllString
 	m["(*regexp.Regexp).ReplaceAllStringFunc"] = inRegexpReplaceAllStringFunc
+	m["(*regexp.Regexp).FindAllStringIndex"] = inRegexpFindAllStringIndex
 	// ---- fmt / errors ----
 	m["fmt.Errorf"] = inErrorToken
 	m["errors.New"] = inErrorToken
@@ -755,6 +756,31 @@ func inRegexpReplaceAllString(x *Exec, s *State, a []Value, _ *ssa.Call) []Outco
 		}
 		out = concatStr(out, Str{B: str.B[prev:]})
 		outs = append(outs, Outcome{Cond: conds[i], Val: out})
+	}
+	return outs
+}
+
+func inRegexpFindAllStringIndex(x *Exec, s *State, a []Value, _ *ssa.Call) []Outcome {
+	rx := rxOf(a[0])
+	str := a[1].(Str)
+	if n, ok := constInt(a[2]); !ok || n >= 0 {
+		unsupported("FindAllStringIndex with a limit")
+	}
+	conds, spans := x.rxSegmentations(s, rx, str)
+	var outs []Outcome
+	for i := range conds {
+		sp := spans[i]
+		if len(sp) == 0 {
+			outs = append(outs, Outcome{Cond: conds[i], Val: Slice{}})
+			continue
+		}
+		outs = append(outs, Outcome{Cond: conds[i], Val: lazyVal{func(cs *State) Value {
+			el := make([]Value, len(sp))
+			for k, p := range sp {
+				el[k] = cs.newSlice([]Value{intConst(p[0]), intConst(p[1])})
+			}
+			return cs.newSlice(el)
+		}}})
 	}
 	return outs
 }
